@@ -1,7 +1,8 @@
 #!/usr/bin/env python3
 """runmut.py <diff> [property ...]: apply a seeded change to /repo, check it compiles, run the quick
 check(s), revert.  Prints one line per property: CAUGHT / MISSED / INCONCLUSIVE."""
-import subprocess, sys, os, re, time
+import subprocess, sys, os, re, time, signal
+signal.signal(signal.SIGTERM, lambda *a: sys.exit(143))
 diff = os.path.abspath(sys.argv[1])
 props = sys.argv[2:] or [re.match(r'(C\d+)', os.path.basename(diff)).group(1)]
 def sh(cmd, **kw): return subprocess.run(cmd, shell=True, capture_output=True, text=True, **kw)
